@@ -79,3 +79,33 @@ Example C01_core_example :
   fst (rw all all (Tpl2 "" (Lit (VStr "l")) "" (Add (Var "x") (Var "y")) "") 0) =
     Tpl2 "" (Lit (VStr "l")) "" (Add (Var "x") (Var "y")) "".
 Proof. repeat split; reflexivity. Qed.
+
+(** ** The optional call of a rewritten chain keeps its receiver (finding 17d, repaired in 50cf4f0).
+    For a callee that is a member access -- plain [o.m?.(..)], optional [o?.m?.(..)] or parenthesised [(o.m)?.(..)] --
+    the receiver is captured first, the access is made ON THE CAPTURED RECEIVER (optionally when the access was optional),
+    the captured function is what the chain's guard tests, and the call is [t_fun.call(t_obj, args...)]. *)
+From IastRw Require Import P_OptCall.
+Theorem C01_optional_call_keeps_receiver : forall c lo hi cx callee args targs s r s' obj prop mopt,
+  oc_callee_member callee = Some (obj, prop, mopt) ->
+  oc_call_from_base c (Node (K KCall lo hi) [cx; callee; Node Lst args; targs]) true s = (Some r, s') ->
+  let t_obj := temp_name c (p_ctr (oc_p s)) in
+  let t_fun := temp_name c (N.succ (p_ctr (oc_p s))) in
+  let access := if mopt then mk KOptChain DUMMY [nB true; mk_member DUMMY (mk_ident DUMMY t_obj) prop]
+                else mk_member DUMMY (mk_ident DUMMY t_obj) prop in
+  r = mk KCall DUMMY [cx; mk_member DUMMY (mk_ident DUMMY t_fun) (mk_ident_name DUMMY "call");
+                      Node Lst (mk_arg (mk_ident DUMMY t_obj) :: args); targs] /\
+  oc_assigns s' = (oc_assigns s ++
+    [mk_assign DUMMY "=" (mk_binding_ident DUMMY t_obj) (assign_right obj IKExpr);
+     mk_assign DUMMY "=" (mk_binding_ident DUMMY t_fun) (assign_right access IKExpr)])%list /\
+  oc_new_ident s' = Some (mk_ident DUMMY t_fun).
+Proof. exact optional_call_keeps_receiver. Qed.
+Print Assumptions C01_optional_call_keeps_receiver.
+
+(** The three callee forms that are recognised, and the one that is not (open finding 21d). *)
+Example C01_optional_call_callees :
+  let m := mk_member (1, 4)%N (mk_ident (1, 2)%N "o") (mk_ident_name (3, 4)%N "m") in
+  oc_callee_member m = Some (mk_ident (1, 2)%N "o", mk_ident_name (3, 4)%N "m", false) /\
+  oc_callee_member (mk KOptChain (1, 5)%N [nB true; m]) = Some (mk_ident (1, 2)%N "o", mk_ident_name (3, 4)%N "m", true) /\
+  oc_callee_member (mk_paren (0, 6)%N m) = Some (mk_ident (1, 2)%N "o", mk_ident_name (3, 4)%N "m", false) /\
+  oc_callee_member (mk KOptChain (1, 7)%N [nB false; mk_member (1, 7)%N (mk KOptChain (1, 5)%N [nB true; m]) (mk_ident_name (6, 7)%N "n")]) = None.
+Proof. repeat split; reflexivity. Qed.
